@@ -367,6 +367,7 @@ int main(int argc, char** argv) {
                 cfg.announce_burst_window = std::chrono::seconds(c.i("window", 120));
                 cfg.announce_burst_limit = static_cast<std::size_t>(c.i("burst", 4));
                 cfg.announce_pow_difficulty = static_cast<std::uint8_t>(c.i("powdiff", 8));
+                cfg.cleanup_interval = std::chrono::seconds(c.i("cleanup", 1));
                 W.node = std::make_unique<Node>(kSelf, cfg);
                 const auto& eff = TA::cfg(*W.node);   // what the node really runs with
                 e.i("interval", eff.announce_min_interval.count()).i("window", eff.announce_burst_window.count())
@@ -377,6 +378,11 @@ int main(int argc, char** argv) {
         } else if (c.op == "adv") {
             vclock::advance_ms(c.i("ms", 0));
             ev::Ev("adv").i("t", vclock::now_ns() / 1'000'000LL).emit();
+        } else if (c.op == "tick") {
+            // the serve loop's periodic tick (cleanup, schedulers): must not disturb admission state
+            if (!W.node) die("tick before reset");
+            W.node->tick();
+            ev::Ev("tick").i("t", vclock::now_ns() / 1'000'000LL).emit();
         } else if (c.op == "hs") {
             if (!W.node || W.mode != "hs") die("hs outside a handshake behaviour");
             do_hs(c);
